@@ -100,9 +100,10 @@ class _ArmFK(ArmC):
     """FK(theta) = PoE(home, stored screws, theta) for theta inside the limits, and the arm's state is that pose"""
     target = ARM + ':Arm.FK'
     under_contract = (MR + ':FKinSpace', ARM + ':Arm.thetaProtector')
+    base_identity = True
 
     def run(self, g, fn, args, kwargs):
-        fx = ArmFixture(g, self.n)
+        fx = ArmFixture(g, self.n, base_identity=self.base_identity)
         th = fx.thetas(g)
         self.th_given = th.copy()
         T1 = fx.arm.FK(th)
@@ -307,11 +308,19 @@ class _ArmIndex(ArmC):
                       MR + ':JacobianSpace')
 
     def run(self, g, fn, args, kwargs):
-        fx = ArmFixture(g, self.n, base_identity=True)
+        # index safety does not depend on values (kernels index with loop counters derived from lengths only):
+        # one concrete arm per shape, executed through the transformed Python source where NumPy checks every index
         tm = g.module(TMM).tm
-        a = fx.arm
-        a.setOrigins(link_homes_global=[tm([k * 1.0, 0, 0, 0, 0, 0]) for k in range(self.n + 1)])
-        th = fx.thetas(g)
+        n = self.n
+        g.real('unused', lo=0.0, hi=1.0)
+        S0 = _np.zeros((6, n))
+        jp = _np.zeros((3, n))
+        for k in range(n):
+            S0[:, k] = [0, 0, 1, 0, -(k + 1.0), 0] if k % 2 == 0 else [0, 1, 0, -(0.5), 0, (k + 1.0)]
+            jp[:, k] = [k + 1.0, 0, 0.5 * (k % 2)]
+        a = g.module(ARM).Arm(tm(), S0.copy(), tm([n + 1.0, 0, 0, 0, 0, 0]), jp.copy())
+        a.setOrigins(link_homes_global=[tm([k * 1.0, 0, 0, 0, 0, 0]) for k in range(n + 1)])
+        th = _np.array([0.3 + 0.2 * k for k in range(n)])
         res = {}
         mr = g.module(MR)
         orig = mr.FKinSpace
@@ -361,9 +370,10 @@ def _mk(name, base, ns=(1, 2), tiers=None, **kw):
 
 _mk('Arm_init', _ArmInit, tiers={2: 'thorough'})
 _mk('Arm_FK', _ArmFK, tiers={2: 'thorough'})
+_mk('Arm_FK_any_base', _ArmFK, ns=(1,), tiers={1: 'thorough'}, base_identity=False)
 _mk('Arm_FK_clamp', _ArmFKclamp, ns=(1, 2))
-_mk('Arm_move', _ArmMove, tiers={2: 'thorough'})
-_mk('Arm_tool_change', _ArmTool, ns=(1,))
+_mk('Arm_move', _ArmMove, tiers={1: 'thorough', 2: 'thorough'})
+_mk('Arm_tool_change', _ArmTool, ns=(1,), tiers={1: 'thorough'})
 _mk('Arm_jacobians', _ArmJac, tiers={2: 'thorough'})
 _mk('Arm_jacobian_is_derivative', _ArmJacDeriv, tiers={2: 'thorough'})
 _mk('Arm_statics', _ArmStatics, ns=(1, 2))
